@@ -97,6 +97,10 @@ ALGO_COMPACT = {'std::stable_partition': 'keep', 'std::remove_if': 'drop', 'std:
                 # hand-written shift-down loop (x_symnf._loop_compact) started at the position K a search returned: the element at K is
                 # dropped, behind it the elements satisfying the predicate are kept in order; arguments (K, last, predicate)
                 'loop::shift_down': 'keep'}
+SHIFT_WRONG = ('`%s` closes the gap with std::move_backward: its destination end lies inside the source range (first < d_last <= last), '
+               'which is the case move_backward must not be used for - it copies from the back, so when two or more elements follow the erased one '
+               'the last element is propagated down the whole tail ([a,b,c,d] minus a gives [d,d,d]): the remaining elements are not the ones that '
+               'were stored. Shifting towards the front is std::move(first, last, d_first)')
 ALGO_REORDER = {'std::partition', 'std::sort', 'std::stable_sort', 'std::reverse', 'std::rotate', 'std::swap', 'std::iter_swap',
                 'std::swap_ranges', 'std::random_shuffle', 'std::shuffle', 'std::nth_element', 'std::partial_sort',
                 'std::make_heap', 'std::push_heap', 'std::pop_heap', 'std::sort_heap', 'std::next_permutation',
@@ -192,6 +196,14 @@ def has_unknown(nf):
     return bool(find_all(nf, bad))
 
 
+def _subst_nf(x, a, b):
+    if x == a:
+        return b
+    if isinstance(x, tuple):
+        return tuple(_subst_nf(y, a, b) for y in x)
+    return x
+
+
 class Seq:
     """the sequence member of one record and the recognisers built on it"""
 
@@ -208,6 +220,23 @@ class Seq:
         if nf[3] != vbegin(S) or nf[4] != vend(S):
             return None
         p = nf[5]
+        if isinstance(p, tuple) and p[0] == 'pred' and isinstance(p[1], tuple) and p[1][0] == 'and':
+            # key(elem) == K  &&  further tests that key equality implies (the same function of both: elem.name.size() == K.size()):
+            # the conjunction is the key comparison
+            cj = self.conjuncts(p[1])
+            keyc = [c for c in cj if c[0] == 'eq' and any(isinstance(x, tuple) and x[:1] == ('param',) for x in c[1:])
+                    and any(contains(x, ('lparam', 0)) for x in c[1:])]
+            if len(keyc) != 1:
+                return None
+            ka, kb = keyc[0][1], keyc[0][2]
+            if contains(kb, ('lparam', 0)):
+                ka, kb = kb, ka
+            for c in cj:
+                if c is keyc[0]:
+                    continue
+                if not (c[0] == 'eq' and any(mk_eq(_subst_nf(x, ka, kb), y) == mk_eq(y, y) for x, y in ((c[1], c[2]), (c[2], c[1])))):
+                    return None
+            p = ('pred', keyc[0])
         if not (isinstance(p, tuple) and p[0] == 'pred' and isinstance(p[1], tuple) and p[1][0] == 'eq'):
             return None
         a, b = p[1][1], p[1][2]
@@ -230,6 +259,78 @@ class Seq:
         if lb and not la:
             return b, a
         return None
+
+    @staticmethod
+    def conjuncts(x):
+        if isinstance(x, tuple) and x and x[0] == 'and':
+            out = []
+            for y in x[1:]:
+                out.extend(Seq.conjuncts(y))
+            return out
+        return [x]
+
+    def digest_lookup(self, nf):
+        """[(element side, other side)] of the conjuncts of a find_if over the whole sequence whose predicate is a conjunction of
+        equalities, each with the element on one side only; None otherwise"""
+        S = self.S
+        nf = unver(nf)
+        if not (isinstance(nf, tuple) and len(nf) == 6 and nf[:3] == ('call', 'std::find_if', None) and nf[3] == vbegin(S) and nf[4] == vend(S)
+                and isinstance(nf[5], tuple) and nf[5][0] == 'pred'):
+            return None
+        out = []
+        for c in self.conjuncts(nf[5][1]):
+            if not (isinstance(c, tuple) and len(c) == 3 and c[0] == 'eq'):
+                return None
+            la, lb = contains(c[1], ('lparam', 0)), contains(c[2], ('lparam', 0))
+            if la == lb:
+                return None
+            out.append((c[1], c[2]) if la else (c[2], c[1]))
+        return out
+
+    def rev_lookup_cond(self, path):
+        """(failed?, R, keyexpr, K) for a decided `R == S.rend()` with R = find_if(S.rbegin(), S.rend(), [key(elem) == K]): the search
+        run back to front"""
+        S = self.S
+        rb, re_ = ('call', 'std::vector::rbegin', S), ('call', 'std::vector::rend', S)
+        for c, pol, _ in path.conds:
+            cu = unver(c)
+            if isinstance(cu, tuple) and cu[0] == 'eq' and re_ in cu[1:]:
+                x = cu[2] if cu[1] == re_ else cu[1]
+                if isinstance(x, tuple) and len(x) == 6 and x[:3] == ('call', 'std::find_if', None) and x[3] == rb and x[4] == re_:
+                    m = self.match_lookup(x[:3] + (vbegin(S), vend(S), x[5]))
+                    if m is not None:
+                        return pol, x, m[0], m[1]
+        return None
+
+    def judge_reverse_erase(self, path, evs, tu, who, probs, und):
+        """erase after a back-to-front search R: the forward iterator of the element *R is std::next(R).base() (= R.base() - 1);
+        R.base() itself designates the element after it"""
+        rc = self.rev_lookup_cond(path)
+        if rc is None:
+            return False
+        failed, R, kx, K = rc
+        if failed:
+            if evs:
+                probs.append(('erase-when-missing', '%s modifies the sequence (`%s`) although the key was not found' % (who, tu.show(evs[0][2].node))))
+            return True
+        erases = [x for x in evs if x[0] == 'member' and x[1] == 'erase']
+        if len(evs) != 1 or len(erases) != 1 or len(erases[0][2].value or ()) != 1:
+            und.append(('erase-shape', '%s after a back-to-front search does not consist of one single-iterator erase' % who))
+            return True
+        a = unver(erases[0][2].value[0])
+        base = lambda x: ('call', 'std::reverse_iterator::base', x)
+        good = (base(('call', 'std::next', None, R, ('const', 1))), base(('call', 'std::next', None, R)), base(mk_comm('add', [R, ('const', 1)])),
+                mk_comm('add', [base(R), ('const', -1)]), ('call', 'std::prev', None, base(R), ('const', 1)), ('call', 'std::prev', None, base(R)))
+        if a in good:
+            return True
+        if a == base(R):
+            probs.append(('erase-reverse-base',
+                          '%s searches back to front and erases `%s`: for a reverse iterator r the element it designates is *(r.base() - 1), so '
+                          'r.base() is the element *after* the one that was found - the requested key stays in the container and its successor is removed '
+                          '(for the last element this is erase(end())); the forward position is std::next(r).base()' % (who, tu.show(erases[0][2].node))))
+        else:
+            und.append(('erase-shape', '%s erases `%s` after a back-to-front search; not recognised as the found element' % (who, show(a))))
+        return True
 
     def lookup_cond(self, path, upto=None):
         """(failed?, L, keyexpr, K, cond nf versioned) for the first decided condition `L == S.end()` on the path"""
@@ -282,6 +383,14 @@ class Seq:
                     er.ver, er.depth = e0.ver, e0.depth
                     out[i:i + 2] = [('member', 'erase', er)]
             i += 1
+        for i, (k0, n0, e0) in enumerate(out):
+            if k0 == 'algo' and n0 == 'std::move_backward' and len(e0.value or ()) == 3:
+                a = [unver(v) for v in e0.value]
+                # (first, last, d_last) with d_last == last - 1 and first behind the start of the destination: overlapping, shifted down
+                if a[1] == vend(S) and a[2] in (mk_comm('add', [vend(S), ('const', -1)]), ('call', 'std::prev', None, vend(S), ('const', 1)),
+                                                ('call', 'std::prev', None, vend(S))) \
+                        and isinstance(a[0], tuple) and (a[0][:3] == ('call', 'std::next', None) or (a[0][0] == 'add' and ('const', 1) in a[0][1:])):
+                    out[i] = ('algo', 'std::move_backward(overlap-down)', e0)
         for i, (k0, n0, e0) in enumerate(out):
             if k0 == 'algo' and n0 == 'std::move(range)':
                 a = [unver(v) for v in e0.value]
@@ -580,6 +689,9 @@ def check_sequence_rules(ctx, tu, se, seq, fns, file_of, tag, counts):
                         elif vals[0] != vbegin(S) or vals[1] != vend(S):
                             ctx.undecided(R2, inst, '`%s` does not run over the whole sequence' % what, l)
                             viol = True
+                    elif name == 'std::move_backward(overlap-down)':
+                        ctx.violation(R2, inst, SHIFT_WRONG % what, l, key='%s|%s|%s|shift-wrong-direction' % (R2, file, pname))
+                        viol = True
                     elif name in ALGO_REORDER:
                         reordered = True
                         ctx.violation(R2, inst, '`%s` reorders the sequence: iteration / at_index no longer follow insertion order' % what, l,
@@ -957,13 +1069,24 @@ def check_flatmap(ctx, tu, tag=''):
                         others = [x for x in evs if x is not compacts[0] and not (x[0] == 'member' and x[1] in ('resize', 'erase'))]
                         if others:
                             probs.append(('unexpected-mutation', 'erase also performs `%s`' % tu.show(others[0][2].node)))
+                    elif lc is None and seq.rev_lookup_cond(p) is not None:
+                        rc_ = seq.rev_lookup_cond(p)
+                        want_lookup(rc_[1], rc_[3], rc_[2])
+                        seq.judge_reverse_erase(p, evs, tu, 'erase()', probs, und)
                     elif lc is not None:
                         failed, L, kx, K, _ = lc
                         want_lookup(L, K, kx)
                         if failed:
                             no_effects(p, 'erase() of a missing key')
                         else:
-                            if len(evs) != 1 or evs[0][1] != 'erase' or [unver(a) for a in evs[0][2].value] != [L]:
+                            wrongdir = [x for x in evs if x[0] == 'algo' and x[1] == 'std::move_backward(overlap-down)']
+                            unk_ = [x for x in evs if x[0] == 'algo' and x[1] not in ALGO_COMPACT and x[1] not in ALGO_REORDER]
+                            if wrongdir:
+                                probs.append(('shift-wrong-direction', SHIFT_WRONG % tu.show(wrongdir[0][2].node)))
+                            elif unk_:
+                                und.append(('erase-shape', 'erase of a present key hands the sequence to `%s`, whose effect is not known'
+                                            % tu.show(unk_[0][2].node)))
+                            elif len(evs) != 1 or evs[0][1] != 'erase' or [unver(a) for a in evs[0][2].value] != [L]:
                                 probs.append(('erase-not-found-iterator', 'erase of a present key does not erase exactly the found iterator'))
                     else:
                         single = [x for x in evs if x[0] == 'member' and x[1] == 'erase' and len(x[2].value or ()) == 1
@@ -1108,6 +1231,23 @@ def check_paramobj(ctx, tu, tag=''):
     if len(anyf) != 1 or len(strf) != 1 or not boolf:
         ctx.broken('R-C10-5: %s is expected to have one Any, one string and a bool / integer query-status member' % PARAM)
         return dict(n5=0, counts=dict(insert=0, insert_ok=0, fn=0, fn_ok=0))
+    if len(boolf) > 1:
+        # several integer-like members (a cached hash, a counter ...): the query status is the one getParam / the reset write
+        written = set()
+        for f_ in tu.functions.values():
+            if f_.get('rec') == PO and not f_['dep'] and last(strip_targs(f_['q'])) in ('getParam', 'resetAllParamQueryStatus') and tu.body(f_) is not None:
+                for y in tu.walk(tu.body(f_)):
+                    lhs_ = None
+                    if y.get('kind') in ('BinaryOperator', 'CompoundAssignOperator') and (y.get('opcode') == '=' or y.get('kind') == 'CompoundAssignOperator'):
+                        lhs_ = tu.strip(tu.kids(y)[0], casts=True)
+                    elif y.get('kind') == 'UnaryOperator' and y.get('opcode') in ('++', '--'):
+                        lhs_ = tu.strip(tu.kids(y)[0], casts=True)
+                    if lhs_ is not None and lhs_.get('kind') == 'MemberExpr' and lhs_.get('name') in {f2['name'] for f2 in boolf}:
+                        written.add(lhs_.get('name'))
+        if len(written) == 1:
+            boolf = [f2 for f2 in boolf if f2['name'] in written]
+        elif len([f2 for f2 in boolf if f2['ct'] == 'bool']) == 1:
+            boolf = [f2 for f2 in boolf if f2['ct'] == 'bool']
     if len(boolf) != 1:
         ctx.undecided(R5, 'ParameterizedObject::Param' + tag, 'cannot tell which of the members %s is the query status' % [f['name'] for f in boolf],
                       tu.fn_file([f for f in tu.functions.values() if f.get('recid') == r['id']][0]))
@@ -1176,7 +1316,32 @@ def check_paramobj(ctx, tu, tag=''):
                     if evs:
                         probs.append(('found-mutates', 'findParam modifies the list on the remembered-position path: `%s`' % tu.show(evs[0][2].node)))
                     continue
-                if rvu is not None and not has_unknown(rvu) and contains(rvu, S) and not any(contains(rvu, ('field', THIS, a)) for a in aux_names):
+                dg = None
+                for c_, _pol, _n in p.conds:
+                    cu_ = unver(c_)
+                    if isinstance(cu_, tuple) and cu_[0] == 'eq' and vend(S) in cu_[1:]:
+                        for x_ in cu_[1:]:
+                            dg = dg or seq.digest_lookup(x_)
+                if dg is not None:
+                    def small(e_):
+                        if isinstance(e_, tuple) and e_[:2] == ('field', ('deref', ('lparam', 0))) and len(e_) == 3:
+                            return next((f2['ct'] for f2 in pr['fields'] if f2['name'] == e_[2] and f2['ct'] in INT_WIDTH), None)
+                        if isinstance(e_, tuple) and e_[0] == 'call' and last(str(e_[1])) in ('size', 'length') and len(e_) == 3 and e_[2] == keyexpr0:
+                            return 'size_t'
+                        return None
+                    kinds = [small(e_) for e_, _o in dg]
+                    if all(kinds):
+                        probs.append(('lookup-by-digest',
+                                      'findParam does not compare the name: its search predicate only compares %s. These are fixed-width integers, a name is '
+                                      'an arbitrary string: two different names that agree in them (same length, colliding hash) are one key for '
+                                      'hasParam / getParam / setParam - the second is never stored and reads the first one\'s value - while removeParam '
+                                      'and the stored `%s` still tell them apart' % (' and '.join('`%s` (%s)' % (show(e_), k_) for (e_, _o), k_ in zip(dg, kinds)), NAME)))
+                    else:
+                        und.append(('lookup-other-key', 'findParam(name, %s) searches with a predicate that is not recognised as a comparison of the name: %s'
+                                    % (bool(flag), ' && '.join('%s == %s' % (show(a_), show(b_)) for a_, b_ in dg))))
+                    continue
+                if rvu is not None and not has_unknown(rvu) and contains(rvu, S) and not any(contains(rvu, ('field', THIS, a)) for a in aux_names) \
+                        and not any(contains(unver(c_), S) for c_, _p, _n in p.conds):
                     probs.append(('unguarded', 'findParam(name, %s) returns `%s` on a path that never compares a lookup of the name with end()'
                                   % (bool(flag), show(rvu))))
                 else:
@@ -1613,6 +1778,11 @@ def check_paramobj(ctx, tu, tag=''):
                         else:
                             probs.append(('erase-not-found-iterator', 'removeParam erases `%s` instead of the entry that holds the parameter findParam returned'
                                           % ', '.join(show(a) for a in ea)))
+                    continue
+                if lc is None and seq.rev_lookup_cond(p) is not None:
+                    rc_ = seq.rev_lookup_cond(p)
+                    report_mismatch(lookup_mismatch(rc_[2], rc_[3], keyexpr0, p0), probs, und)
+                    seq.judge_reverse_erase(p, evs, tu, 'removeParam', probs, und)
                     continue
                 if lc is None:
                     if evs:
